@@ -37,8 +37,8 @@ class Settings:
     controlled = False  # park probes and choose completion orders
     chooser = None  # callable(ex, point, cands, others, rw) -> list of labels to release
     stress_sleep = 0.0  # upper bound of random sleep in probes when not controlled
-    valve_s = 30.0  # safety valve: a parked probe waits at most this long
-    settle_s = 20.0
+    valve_s = 120.0  # safety valve: a parked probe waits at most this long
+    settle_s = 60.0
     step_limit = 0  # scheduler loop iterations allowed per execution (0 = unlimited)
     seed = 0
     inline_release = True
